@@ -78,6 +78,11 @@ def msdos_arg_order(facts, rep, rule):
     return ok
 
 
+def canon_eq(a, b):
+    from engine.expr import canon
+    return canon(a) == canon(b)
+
+
 def patch_rules(facts, rep, rule="C01-PATCH"):
     ok = True
     ff = facts.one(ZW + "finish_file$")
@@ -207,6 +212,40 @@ def patch_rules(facts, rep, rule="C01-PATCH"):
             rv_ = s_["rv"]
             if rv_["k"] in ("ref", "rawptr") and rv_.get("mut") and [q.get("n") for q in rv_["place"]["p"] if q["k"] == "field"][:1] == ["stats"]:
                 muts.append("borrows self.%s mutably" % ".".join(q.get("n") for q in rv_["place"]["p"] if q["k"] == "field"))
+    # the accounting step itself: every accepted chunk is hashed and ADDED to the byte count (an entry written with several write()
+    # calls declares the sum, not the last chunk)
+    upd = facts.find(r"^write::ZipWriterStats::update$")
+    if upd:
+        u = upd[0]
+        exu = Ex(u)
+        asg = [(bi_, si_, s_) for bi_, si_, s_ in u.stmts() if s_["k"] == "assign" and [q.get("n") for q in s_["place"]["p"] if q["k"] == "field"][-1:] == ["bytes_written"]]
+        good = len(asg) == 1
+        if good:
+            e_ = norm(exu.rvalue(asg[0][2]["rv"], (asg[0][0], asg[0][1])))
+            good = e_[0] == "bin" and e_[1] == "Add" and any(x_[0] == "field" and x_[2] == "bytes_written" for x_ in (e_[2], e_[3])) and \
+                any(any(y_[0] == "call" and re.search(r"::len$", y_[1]) and y_[2] and y_[2][0][0] == "arg" for y_ in walk(x_)) or x_[0] == "len" for x_ in (e_[2], e_[3]))
+        hs = calls_matching(u, r"Hasher::update$")
+        good = good and len(hs) == 1 and norm(exu.operand(hs[0][1]["args"][1], (hs[0][0], None)))[0] == "arg"
+        ok &= rep.check(good, rule, "stats.update:accumulates", where(u, u.span), "bytes_written += buf.len(); hasher.update(buf)",
+                        "the per-entry accounting step does not add the chunk's length to bytes_written and hash exactly the chunk")
+    # the extra-data path moves the data start: the accounting start moves with it (the compressed size is measured from there)
+    ee = facts.find(ZW + "end_extra_data$")
+    if ee:
+        e0 = ee[0]
+        exe = Ex(e0)
+        st_ = [(bi_, si_, s_) for bi_, si_, s_ in e0.stmts() if s_["k"] == "assign" and [q.get("n") for q in s_["place"]["p"] if q["k"] == "field"][-2:] == ["stats", "start"]]
+        ds_ = [(bi_, si_, s_) for bi_, si_, s_ in e0.stmts() if s_["k"] == "assign" and s_["place"]["p"] and s_["place"]["p"][-1]["k"] == "deref" and
+               "data_start" in (e0.local_name(s_["place"]["l"]) or "")]
+        wr_ = [b_ for b_, t_ in e0.calls() if (t_.get("callee") or "").endswith("Write::write_all")]
+        good = bool(st_) and bool(wr_)
+        if good:
+            v_ = norm(exe.rvalue(st_[0][2]["rv"], (st_[0][0], st_[0][1])))
+            good = v_[0] == "bin" and v_[1] == "Add" and any(y_[0] == "call" and re.search(r"::len$", y_[1]) and ".extra_field" in tokens(y_) for y_ in walk(v_))
+            if ds_:
+                good = good and canon_eq(v_, norm(exe.rvalue(ds_[0][2]["rv"], (ds_[0][0], ds_[0][1]))))
+        ok &= rep.check(good, rule, "end_extra_data:accounting-start-follows-data-start", where(e0, e0.span),
+                        "after the local extra data is emitted: stats.start = data_start = old data_start + extra_field.len()",
+                        "the local extra data is emitted but the accounting start is not advanced with the data start: the entry's compressed size then includes its extra data")
     ok &= rep.check(not muts, rule, "finish_file:accounting-read-only", where(ffn, ffn.span), "finish_file only reads stats.hasher / stats.bytes_written / stats.start",
                     "finish_file %s: a second close of the same entry (after a rejected start, or at finish) patches different values" % sorted(set(muts))[:2])
     return ok
